@@ -110,6 +110,9 @@ func loadProgram(cfg *config, repoDir, pkgPath, pkgDir string, harnessDirs []str
 			*cell = iface{t: types.NewPointer(t), v: &c}
 		}
 	}
+	p.globalInit["github.com/json-iterator/go.pow10"] = func(i *interpreter, cell *value) {
+		*cell = []value{uint64(1), uint64(10), uint64(100), uint64(1000), uint64(10000), uint64(100000), uint64(1000000)}
+	}
 	return p, nil
 }
 
